@@ -15,21 +15,21 @@ from ..harness import Session
 
 BIG = "12345678901234567890"
 FULL = {
-    "node": ["0", "1", "255", "256", "-1", "", "x", " 1", "01", "1e2"],
-    "child": ["0", "1", "254", "255", "256", "-1", "", "x"],
-    "command": ["0", "1", "2", "3", "4", "5", "-1", "", "x"],
-    "ack": ["0", "1", "2", "-1", "", "x"],
-    "type": ["0", "3", "4", "5", "-1", "", "x", BIG],
+    "node": ["0", "1", "255", "256", "-1", "", "x", " 1", "01", "1e2", "²"],
+    "child": ["0", "1", "254", "255", "256", "-1", "", "x", "0255", "+255", " 255"],
+    "command": ["0", "1", "2", "3", "4", "5", "-1", "", "x", "01", "+3", "²"],
+    "ack": ["0", "1", "2", "-1", "", "x", "01"],
+    "type": ["0", "3", "4", "5", "-1", "", "x", BIG, "²", "03"],
     "payload": ["", "p"],
     "tails": [[], [""], ["q"], ["q", "r"]],
     "endings": ["\n"],
 }
 QUICK = {
     "node": ["0", "255", "256", "x", " 1"],
-    "child": ["0", "255", "256", "x"],
-    "command": ["1", "3", "4", "5", "x"],
+    "child": ["0", "255", "256", "x", "0255", "+255"],
+    "command": ["1", "3", "4", "5", "x", "+3", "²"],
     "ack": ["0", "1", "2", ""],
-    "type": ["0", "3", "-1", "x", BIG],
+    "type": ["0", "3", "-1", "x", BIG, "²"],
     "payload": ["", "p"],
     "tails": [[], ["q"]],
     "endings": ["", "\n", "\r\n", " \n"],
@@ -68,10 +68,10 @@ _SESSIONS: dict = {}
 
 
 def schema(version: str) -> MessageSchema:
-    s = _SCHEMAS.get(version)
-    if s is None:
-        s = _SCHEMAS[version] = MessageSchema()
-        s.set_protocol(get_protocol(version))
+    """A fresh decoder per line: a line's verdict must not depend on lines decoded before it
+    (histories of lines are a separate pass, check_history)."""
+    s = MessageSchema()
+    s.set_protocol(get_protocol(version))
     return s
 
 
@@ -101,12 +101,9 @@ def check_line(version: str, line: str, gateway_level: bool = True) -> list:
     elif accepted is False and cls == "must_accept":
         bad("well-formed-rejected", "rejected as invalid")
     if gateway_level and cls == "must_reject":
-        s = _SESSIONS.get(version)
-        if s is None:
-            s = _SESSIONS[version] = Session(version)
+        s = Session(version, reset_modules=False)
         out = s.line(line)
         if not (out.kind == "raise" and isinstance(out.exc, InvalidMessageError)):
-            _SESSIONS.pop(version, None)
             if out.kind == "raise":
                 bad(f"listen-foreign-exception:{type(out.exc).__name__}", f"listen() raised {type(out.exc).__name__}: {out.exc}")
             else:
@@ -114,6 +111,58 @@ def check_line(version: str, line: str, gateway_level: bool = True) -> list:
         elif out.writes:
             pass  # version is known; no write expected, but that is C06's statement
     return viols
+
+
+HISTORY_LINES = [
+    "0;255;3;0;9;a", "0;7;3;0;9;a", "1;3;1;0;2;v", "1;255;1;0;2;v", "1;7;3;0;3;", "1;7;4;0;3;", "1;255;4;0;0;x",
+    "1;3;2;0;0;", "1;255;2;0;0;", "256;3;1;0;2;v", "1;3;1;2;2;v", "1;3;5;0;2;v", "1;3;1;0;2", "1;3;0;0;6;d", "1;255;0;0;17;2.0", "x;3;1;0;2;v",
+]
+
+
+def check_history(version: str, seq: list) -> list:
+    """The verdict on a line must not depend on the lines decoded before it: one decoder and one gateway
+    are fed a whole sequence; every line's accept/reject outcome must equal the reference verdict."""
+    viols = []
+    sch = MessageSchema()
+    sch.set_protocol(get_protocol(version))
+    gw = Session(version)
+    for i, line in enumerate(seq):
+        cls, vals = verdict(line)
+
+        def bad(k, what):
+            viols.append((f"C02|history-{k}", f"[{version}] line #{i} {line!r} ({cls}) after {seq[:i]}: {what}", {"version": version, "seq": seq}))
+
+        try:
+            m = sch.load(line)
+            got = (m.node_id, m.child_id, m.command, m.ack, m.message_type, m.payload)
+            if cls == "must_reject":
+                bad("ill-formed-accepted", f"decoded to {got}")
+            elif got != vals:
+                bad("decoded-values-differ", f"decoded to {got}, the line spells {vals}")
+        except (ValidationError, InvalidMessageError):
+            if cls == "must_accept":
+                bad("well-formed-rejected", "rejected as invalid")
+        except Exception as exc:  # noqa: BLE001
+            bad(f"foreign-exception:{type(exc).__name__}", f"decoder raised {exc!r}")
+        out = gw.line(line)
+        rejected = out.kind == "raise" and isinstance(out.exc, InvalidMessageError)
+        if cls == "must_reject" and not rejected:
+            bad("listen-accepted-ill-formed", f"listen() gave {out.describe()}")
+        if cls == "must_accept" and rejected:
+            bad("listen-rejected-well-formed", f"listen() gave {out.describe()}")
+    return viols
+
+
+def job_history(j):
+    version, firsts = j
+    viols = []
+    n = 0
+    for a in firsts:
+        for b in HISTORY_LINES:
+            for c in HISTORY_LINES:
+                n += 1
+                viols += check_history(version, [a, b, c])
+    return n, {"must_accept": 0, "must_reject": 0, "either": 0}, viols, f"{a} | {b} | {c}"
 
 
 def lines_for(alpha: dict, node: str, child: str):
@@ -161,6 +210,8 @@ def run(ctx: core.Ctx) -> core.Report:
     jobsp = [(v, ctx.tier, k) for v in R.VERSIONS for k in range(0, 6)]
     r6 = core.pmap(job_six, jobs6, ctx.workers, chunksize=1)
     rp = core.pmap(job_prefix, jobsp, ctx.workers, chunksize=1)
+    jobsh = [(v, HISTORY_LINES[i : i + 4]) for v in R.VERSIONS for i in range(0, len(HISTORY_LINES), 4)]
+    rp += core.pmap(job_history, jobsh, ctx.workers, chunksize=1)
     total = 0
     classes = {"must_accept": 0, "must_reject": 0, "either": 0}
     viols = []
@@ -175,7 +226,7 @@ def run(ctx: core.Ctx) -> core.Report:
         "evaluations": total,
         "distinct_nontrivial": classes["must_accept"] + classes["either"] + classes["must_reject"],
         "classes": classes,
-        "rule": "full product of per-position token alphabets (6-8 fields) x payload/extra-field variants x endings, plus every 0-5 field prefix, x five versions; every generated line is distinct; each is decoded by the real MessageSchema and, when it must be rejected, also fed to a real Gateway.listen step",
+        "rule": "full product of per-position token alphabets (6-8 fields) x payload/extra-field variants x endings, plus every 0-5 field prefix, x five versions; every generated line is distinct; each is decoded by a fresh real MessageSchema and, when it must be rejected, also fed to a fresh real Gateway.listen step; plus every sequence of 3 lines over a 16-line alphabet through one decoder and one gateway (a verdict must not depend on earlier lines)",
         "exhaustive": True,
         "bounds": {k: v for k, v in alpha.items()},
         "samples": ctx.pick([s for s in samples if s is not None], 6),
@@ -192,5 +243,8 @@ def run(ctx: core.Ctx) -> core.Report:
 
 
 def replay(data: dict) -> dict:
+    if "seq" in data:
+        v = check_history(data["version"], data["seq"])
+        return {"violated": bool(v), "violations": [{"key": k, "what": w} for k, w, _ in v]}
     v = check_line(data["version"], data["line"])
     return {"violated": bool(v), "violations": [{"key": k, "what": w} for k, w, _ in v]}
